@@ -599,7 +599,14 @@ func (e *Engine) strCat(st *State, a, b string) string {
 	}
 	t := qs[len(qs)-1]
 	for i := len(qs) - 2; i >= 0; i-- {
-		t = "(scat " + qs[i] + " " + t + ")"
+		nt := "(scat " + qs[i] + " " + t + ")"
+		if st != nil && !st.asserted["len:"+nt] {
+			// length of a concatenation (no string is longer than 2^48 bytes: no wrap-around)
+			st.asserted["len:"+nt] = true
+			st.pc = append(st.pc, "(= (slen "+nt+") (bvadd (slen "+qs[i]+") (slen "+t+")))",
+				"(bvule (slen "+qs[i]+") #x0000ffffffffffff)", "(bvule (slen "+t+") #x0000ffffffffffff)")
+		}
+		t = nt
 	}
 	return t
 }
@@ -759,6 +766,8 @@ func (e *Engine) simpleInstr(fr *Frame, st *State, instr ssa.Instruction) (*Val,
 				st.assume(eq("(boxval_Str "+ref+")", x.T))
 			case sBytes:
 				st.assume(eq("(boxval_Bytes "+ref+")", x.T))
+			case sSlice:
+				st.assume(eq("(boxval_Slice "+ref+")", x.T))
 			}
 		}
 		return r, nil
